@@ -22,25 +22,26 @@ class Report:
         self.assumptions = []
         self.explanation = ''
         self.undecided = ''
+        self.prefix = ''      # build-configuration tag of the thorough tier
 
     # -- recording
 
     def ob(self, clause, rule, instance, ok, site='', detail='', func=''):
         """One obligation.  `instance` identifies it stably (qualified names, no line numbers)."""
-        self.obs.append({'clause': clause, 'rule': rule, 'instance': instance, 'site': site,
+        self.obs.append({'clause': clause, 'rule': rule, 'instance': self.prefix + instance, 'site': site,
                          'function': func, 'verdict': 'discharged' if ok else 'FAILED',
                          'detail': detail})
         return ok
 
     def broken(self, clause, msg):
-        self.brokens.append((clause, msg))
+        self.brokens.append((clause, self.prefix + msg))
 
     def note(self, msg):
         self.notes.append(msg)
 
     def floor(self, clause, what, count, minimum):
         """Vacuity guard: the rule must have matched at least `minimum` instances."""
-        self.counts['%s %s' % (clause, what)] = (count, minimum)
+        self.counts['%s%s %s' % (self.prefix, clause, what)] = (count, minimum)
         if count < minimum:
             self.broken(clause, 'rule matched %d instance(s) of "%s", confirmed floor is %d '
                                 '(anchor moved or extractor lost it)' % (count, what, minimum))
